@@ -393,7 +393,7 @@ def r_overrides(ck: Checker) -> None:
             ks: list = []
             for k, v in zip(dct.keys, dct.values):
                 if k is None:
-                    inner = local_dicts.get(norm(v))
+                    inner = v if isinstance(v, ast.Dict) else local_dicts.get(norm(v))
                     if inner is None or inner is dct:
                         ks.append(None)
                     else:
